@@ -883,7 +883,11 @@ class dictable(Dict):
         """
         return self[self.columns & other]
             
-    __radd__ = __add__
+    def __radd__(self, other):
+        ## record + table, [records] + table: the left operand's rows come first (0 + table, as sum() does, is the table)
+        if other is None or (is_num(other) and other == 0):
+            return self
+        return self.concat(other, self)
     
     def _listby(self, by):
         keys = self[by]
